@@ -66,7 +66,10 @@ def correspondence(ctx):
     ops = [gen_op(rng, quick) for _ in range(n)]
     # directed: ring back-pressure (tiny output room, many small jobs), job larger than one publication, empty input, single byte
     ops += ["mt 2 100=1,401=524288,201=1 4000000 5 4000000 1,2000 1 77 -1 0 1", "mt 4 100=1,401=524288 6000000 6 6000000 300 2 78 -1 0 1",
-            "mt 1 100=3,401=2097152,201=1 5000000 7 1000000 100000 4 79 -1 0 2", "mt 3 100=1,401=524288 4000000 11 4000000 8000000 5 82 -1 0 1", "mt 4 100=1,401=524288,160=1,101=20 5000000 12 1000000 8000000 5 83 -1 0 2", "mt 3 100=1,201=1 0 8 1 100 1 80 -1 0 2", "mt 2 100=1,160=1,101=20,401=524288 3000000 9 70000 30000 1 81 2 0 2"]
+            "mt 1 100=3,401=2097152,201=1 5000000 7 1000000 100000 4 79 -1 0 2", "mt 3 100=1,401=524288 4000000 11 4000000 8000000 5 82 -1 0 1", "mt 4 100=1,401=524288,160=1,101=20 5000000 12 1000000 8000000 5 83 -1 0 2", "mt 3 100=1,201=1 0 8 1 100 1 80 -1 0 2", "mt 2 100=1,160=1,101=20,401=524288 3000000 9 70000 30000 1 81 2 0 2",
+            # the caller laps the round input buffer while the first job loaded after the previous wrap is still stalled (preset 6: long stall + patient caller)
+            "mt 2 100=5,401=1048576,402=6,101=20 12000000 13 12000000 8000000 6 84 -1 0 1", "mt 3 100=3,401=1048576,402=5,101=21,201=1 16000000 14 300000 100000 6 85 -1 0 1",
+            "mt 2 100=1,401=524288,402=4,201=1 9000000 15 9000000 8000000 6 86 -1 0 2"]
     res = run_all(hx("plain"), ops)
     logs, meta = [], []
     stats = dict(frames=0, events=0, hangs=0)
